@@ -36,6 +36,7 @@ fn main() {
 		scale: 1.0,
 		max_seconds: 1e9,
 		known: Vec::new(),
+		target_prop: None,
 		miri: cfg!(miri),
 		leakcheck: false,
 		shard: (0, 1),
@@ -67,6 +68,10 @@ fn main() {
 				cfg.max_seconds = args[i].parse().unwrap_or_else(|_| usage());
 			}
 			"--leakcheck" => cfg.leakcheck = true,
+			"--target-prop" => {
+				i += 1;
+				cfg.target_prop = Some(args[i].clone());
+			}
 			"--shard" => {
 				i += 1;
 				let (a, b) = args[i].split_once('/').unwrap_or_else(|| usage());
